@@ -225,3 +225,131 @@ def match(pat, t, extra_strip=()):
             first = first or err
         return "in %s: %s" % (pat.spec, first)
     raise TypeError(pat)
+
+
+class VF:
+    """pattern: field `name` of variant `variant` of parameter i (Box derefs/casts transparent)"""
+    def __init__(self, i, variant, name):
+        self.i, self.variant, self.name = i, variant, str(name)
+
+    def __repr__(self):
+        return "(arg%d as %s).%s" % (self.i, self.variant, self.name)
+
+
+class AggV:
+    """pattern: enum variant constructor `Variant(ops..)` (Box::new around operands is stripped)"""
+    def __init__(self, variant, *ops):
+        self.variant, self.ops = variant, ops
+
+    def __repr__(self):
+        return "%s{%s}" % (self.variant, ", ".join(map(repr, self.ops)))
+
+
+class T:
+    """pattern: exactly this term"""
+    def __init__(self, t):
+        self.t = t
+
+    def __repr__(self):
+        return show(self.t)
+
+
+_match0 = match
+
+
+def match(pat, t, extra_strip=()):  # noqa: F811  (extends the matcher above)
+    if isinstance(pat, VF):
+        t = strip(t, extra_strip)
+        want = ("as", ("param", pat.i), pat.variant)
+        if isinstance(t, tuple) and t[0] == "field" and t[2] == pat.name and strip(t[1]) == want:
+            return None
+        return "expected %r, found %s" % (pat, show(t))
+    if isinstance(pat, AggV):
+        t = strip(t, extra_strip)
+        if isinstance(t, tuple) and t[0] == "agg" and t[3] == pat.variant:
+            if len(t[4]) != len(pat.ops):
+                return "variant %s arity %d != %d" % (pat.variant, len(t[4]), len(pat.ops))
+            for sp, st in zip(pat.ops, t[4]):
+                r = match(sp, st, extra_strip)
+                if r:
+                    return r
+            return None
+        return "expected constructor %s, found %s" % (pat.variant, show(t))
+    if isinstance(pat, T):
+        return None if strip(t, extra_strip) == pat.t else "expected %s, found %s" % (show(pat.t), show(t))
+    if isinstance(pat, (C, F, Agg)):
+        # re-dispatch sub-patterns through this extended matcher
+        return _match_ext(pat, t, extra_strip)
+    return _match0(pat, t, extra_strip)
+
+
+def _match_ext(pat, t, extra_strip):
+    t = strip(t, extra_strip)
+    if isinstance(pat, F):
+        if isinstance(t, tuple) and t[0] == "field" and t[2] == pat.name:
+            return match(pat.sub, t[1], extra_strip)
+        return "expected field .%s, found %s" % (pat.name, show(t))
+    if isinstance(pat, Agg):
+        if isinstance(t, tuple) and t[0] == "agg" and (pat.name is None or (t[2] or "").endswith(pat.name)
+                                                       or t[1] == pat.name):
+            if len(t[4]) != len(pat.ops):
+                return "aggregate arity %d != %d" % (len(t[4]), len(pat.ops))
+            for sp, st in zip(pat.ops, t[4]):
+                r = match(sp, st, extra_strip)
+                if r:
+                    return r
+            return None
+        return "expected aggregate %s, found %s" % (pat.name, show(t))
+    if not (isinstance(t, tuple) and t[0] == "call"):
+        return "expected call %s, found %s" % (pat.spec, show(t))
+    if not callee_is(t[1], pat.spec):
+        return "expected call to %s, found call to %s" % (pat.spec, t[1].key())
+    args = t[2]
+    if len(args) != len(pat.args):
+        return "call %s: %d args, expected %d" % (pat.spec, len(args), len(pat.args))
+    orders = [list(pat.args)]
+    if pat.comm and len(pat.args) >= 2:
+        sw = list(pat.args)
+        sw[-1], sw[-2] = sw[-2], sw[-1]
+        orders.append(sw)
+    first = None
+    for o in orders:
+        err = None
+        for sp, st in zip(o, args):
+            err = match(sp, st, extra_strip)
+            if err:
+                break
+        if err is None:
+            return None
+        first = first or err
+    return "in %s: %s" % (pat.spec, first)
+
+
+def gamma_arms(te, t):
+    """for t = gamma(discr(x); arms): {variant name or label: term}; else None"""
+    if not (isinstance(t, tuple) and t and t[0] == "gamma"):
+        return None
+    c = t[1]
+    vm = te._discr_variants.get(c) if isinstance(c, tuple) and c[0] == "discr" else None
+    out = {}
+    for lab, v in t[2]:
+        if vm and isinstance(lab, str) and lab in vm:
+            out[vm[lab]] = v
+        elif vm and isinstance(lab, tuple) and lab[0] == "not":
+            rest = [n for val, n in vm.items() if val not in lab[1]]
+            out[("rest", tuple(sorted(rest)))] = v
+        else:
+            out[lab] = v
+    return out
+
+
+def bool_arms(t):
+    """for t = gamma(cond; 0->a, not0->b) returns (cond, false_term, true_term) else None"""
+    if not (isinstance(t, tuple) and t and t[0] == "gamma"):
+        return None
+    d = dict(t[2])
+    f = d.get("0")
+    tr = d.get(("not", ("0",)), d.get("1"))
+    if f is None or tr is None or len(d) != 2:
+        return None
+    return t[1], f, tr
